@@ -225,6 +225,9 @@ def c12(ctx):
     if not r["ok"]:
         raise Infra("the heap machine (no deviation) does not satisfy its own invariants - model error:\n" + r["out"][-3000:])
     ctx.extra["model_states"] = r["distinct"]
+    # (that run also checks the action property AbsRefines: every step is a step of the abstract machine GoHeapAbs)
+    # unbounded: Purity of the abstract machine for pools, arrays and histories of any size (TLA+ proof system)
+    ctx.extra["tlaps_obligations_proved_GoHeapAbsProof"] = ctx.tlapm("GoHeapAbsProof")
     # R2: histories
     hists = deviation_histories(ctx)
     ctx.extra["deviation_counterexamples"] = [[s["op"] for s in hh] for hh in hists]
